@@ -480,8 +480,10 @@ pub fn run(run: &Run) {
     run.assume("keys and offset formulas are taken from the clean-room RTMPE description the module cites");
     if run.violation_count() == 0 {
         if distinct_offsets != 2 * 728 {
-            eprintln!("MACHINERY-ERROR C11: only {} of 1456 own digest positions were reached", distinct_offsets);
-            std::process::exit(2);
+            // vacuity warning, not a verdict: a library that fills packet 1 differently (still validly) can make
+            // the forced pointer bytes ineffective; every packet produced was still checked
+            eprintln!("WARNING property=C11 vacuity: only {} of 1456 own digest positions were reached", distinct_offsets);
+            run.cap_hit(&format!("only {} of 1456 own digest positions were reached (pointer bytes could not be forced)", distinct_offsets));
         }
         run.require_hist(&["own_packet1_digest_valid", "packet2_signature_valid", "digestless_echoed", "packet2_signature_valid_other_version_bytes", "near_miss_packets_echoed"]);
     }
